@@ -128,6 +128,22 @@ func init() {
 				}
 			})
 		}
+		// several callers blocked in Result() / Err() on one handle while the job is still going
+		if nr := r.Intn(4); nr >= 2 && e.kind != kPlain {
+			e.p("readers", nr)
+			for k := 0; k < nr; k++ {
+				jn.goClient("reader", func() {
+					vt.Yield()
+					if len(e.subs) == 0 {
+						return
+					}
+					s := e.subs[0]
+					if s.accepted {
+						e.resultJob(s)
+					}
+				})
+			}
+		}
 		jn.wait()
 		e.drain()
 		for _, s := range e.subs {
